@@ -653,8 +653,13 @@ def r15_a(ctx):
     for n in ast.walk(init.node):
         if isinstance(n, ast.Assign) and isinstance(n.targets[0], ast.Attribute) and n.targets[0].attr in ('_contents', 'args'):
             v = n.value
-            copies = any(isinstance(x, ast.Call) and norm(x.func) in ('list', 'TexArgs', 'tuple', 'copy.copy') for x in ast.walk(v)) \
-                or isinstance(v, (ast.List, ast.ListComp))
+            def _copies(e):
+                if isinstance(e, ast.IfExp):
+                    return _copies(e.body) and _copies(e.orelse)
+                if isinstance(e, ast.BoolOp):
+                    return all(_copies(x) for x in e.values[:1]) and True
+                return isinstance(e, (ast.List, ast.ListComp)) or (isinstance(e, ast.Call) and norm(e.func) in ('list', 'TexArgs', 'tuple', 'copy.copy'))
+            copies = _copies(v)
             rr.ob(copies, {'constructor_field': n.targets[0].attr, 'value': norm(v)})
             if not copies:
                 rr.fail(Finding('R15.a', 'data', init.qual, n, 'the constructor stores the caller\'s list object: two '
